@@ -317,6 +317,16 @@ theorem glvlife_market_token_ledger_every_history (l sh : Nat) (now : Int) (ops 
 theorem glvlife_step_preserves_total (L S : Nat) (s : St) (op : Op) (h : Ledger L S s) : Ledger L S (step s op).1 :=
   step_preserves_total s op h
 
+/-- FINDING F-C45-orphan (hypothesis `S ≠ 0` of `glv_roundtrip_no_gain` is necessary): when the GLV supply is 0 but the
+GLV still has value (market tokens left behind by earlier redemptions), `usd_to_market_token_amount` mints GLV tokens
+for the WHOLE value `G + R`, and redeeming them pays out the deposit plus the orphaned residue. Pricing model
+`Gmx.Model.Glv`: depositing market tokens worth `R = 1000` into a GLV worth `G = 500` with supply 0 mints 1500 GLV tokens,
+which redeem (pool value = supply, so one market token is worth 1) for 1500 market tokens — 500 more than went in.
+Replayed on the real program by `corpus/C45/glvlife-orphan.ops` (`!KNOWN F-C45-orphan`). -/
+theorem glv_roundtrip_zero_supply_witness :
+    glvMint 1000 500 0 1 = some 1500 ∧ glvRedeem 1500 (500 + 1000) (0 + 1500) 2000 2000 1 = some 1500 ∧ 1000 < 1500 := by
+  decide
+
 /-! GLV shifts (`create_glv_shift → execute_glv_shift → close_glv_shift`) -/
 
 /-- a shift is created only by a keeper, between two different markets of the GLV, for a non-zero amount the GLV
